@@ -7,7 +7,7 @@ Ltac iarith_tac ps :=
   intros m pb s0 s' va vb Hm Hpc Hr rc Ha Hb Ea Eb Hrc Hrck; unfold in_i in *;
   sound_paths ps Hpc Hr; subst rc;
   sound_mem m Hm Hrck; clear_ap m s0; clear_unused_canon m;
-  unfold iwrap, ifits; rewrite ?Ea, ?Eb in *;
+  unfold iwrap, ifits; rewrite ?Ea, ?Eb in *; merge_mods;
   (destruct (_ <=? _) eqn:E1; [apply Z.leb_le in E1|apply Z.leb_gt in E1]);
   (destruct (_ <? _) eqn:E2; [apply Z.ltb_lt in E2|apply Z.ltb_ge in E2]); cbn [andb];
   unfold P in *; repeat split; lia.
